@@ -100,10 +100,11 @@ DoAppend(hp, s, d, src, vals0, nc) ==
     THEN \* capacity suffices: same array, visible through every alias
          IF x.nil THEN Res(hp, [s EXCEPT ![d] = Nil], Ok(0))
          ELSE Res(Write(hp, x.a, x.off + x.len + 1, vals), [s EXCEPT ![d] = Sl(x.a, x.off, need, x.cap)], Ok(0))
-    ELSE \* fresh array: old elements, then the values, then a tail nobody has seen yet
-         IF nc < need THEN [en |-> FALSE, heap |-> hp, sv |-> s, out |-> Ok(0)]    \* not allowed: too small
-         ELSE Res(Fresh(hp, Win(hp, x) \o vals \o [i \in 1..(nc - need) |-> Tok(Unknown)]),
-                  [s EXCEPT ![d] = Sl(NewId(hp), 0, need, nc)], Ok(0))
+    ELSE \* fresh array: old elements, then the values, then a tail nobody has seen yet;
+         \* a capacity below the needed length is not allowed (en = FALSE; the result shown is the smallest legal one)
+         LET c == IF nc < need THEN need ELSE nc IN
+         [Res(Fresh(hp, Win(hp, x) \o vals \o [i \in 1..(c - need) |-> Tok(Unknown)]),
+              [s EXCEPT ![d] = Sl(NewId(hp), 0, need, c)], Ok(0)) EXCEPT !.en = (nc >= need)]
 
 \* append(s[src], s[oth]...): the operand is read before anything is written
 DoAppendSlice(hp, s, d, src, oth, nc) == DoAppend(hp, s, d, src, Win(hp, s[oth]), nc)
